@@ -250,6 +250,12 @@ def culprits(r, c, kind, h=""):
     progs = r["progs"]
     vi = next(i for i, p in enumerate(progs) if p[0] == c)
     last = max(i for i, (ci, st) in enumerate(r["schedule"]) if ci == vi and st in ("render", "cli_render", "build"))
+    if h.startswith("EXC@"):
+        # the victim raised at this step: only clients that ran before it can be the cause
+        failed = h[4:].split(":", 1)[0]
+        idxs = [i for i, (ci, st) in enumerate(r["schedule"]) if ci == vi and st == failed]
+        if idxs:
+            last = idxs[0]
     before = [progs[ci][0] for ci, st in r["schedule"][:last] if ci != vi]
     if h.startswith("EXC") and ("Unrecongnized name" in h or "unrecognizable" in h):
         custom = [x for x in before if x in ("B", "C")]
